@@ -1596,6 +1596,25 @@ def s_int_try_from(I_, st, path, c, args, t, depth):
     return [(st, ok(v) if lo <= v[1] <= hi else err(U("TryFromIntError")))]
 
 
+def s_slice_get(I_, st, path, c, args, t, depth):
+    """slice::get(i) with a usize index: Some(element) exactly when i < len"""
+    seqv = _target(I_, st, args[0])
+    idx = args[1]
+    if (t.get("atys") or ["", ""])[1:2] != ["usize"]:
+        return None
+    if seqv[0] == "seq" and idx[0] == "i" and not any(x[0] == "splice" for x in seqv[1]):
+        return [(st, some(seqv[1][idx[1]]) if 0 <= idx[1] < len(seqv[1]) else NONE)]
+    ln = ("un", "len", seqv) if seqv[0] != "seq" else ("call", "len", (seqv,), "usize")
+    test = ("bin", "Lt", idx, ("call", "Vec::len", (seqv,), "usize"))
+    s_t, s_f = _truth_fork(st, test)
+    out = []
+    if s_t is not None:
+        out.append((s_t, some(("call", "Index::index", (seqv, idx), ""))))
+    if s_f is not None:
+        out.append((s_f, NONE))
+    return out
+
+
 SUMMARIES = [(re.compile(rx), h) for rx, h in [
     (r"^(std|alloc)::vec::Vec::<T>::new$|^(std|alloc)::vec::Vec::<T>::with_capacity$", s_vec_new),
     (r"^(std|alloc)::vec::Vec::<T, A>::push$|^(std|alloc)::string::String::push_str$|^(std|alloc)::string::String::push$", s_vec_push),
@@ -1630,6 +1649,7 @@ SUMMARIES = [(re.compile(rx), h) for rx, h in [
     (r"Iterator>::unzip$|Iterator::unzip$", s_unzip),
     (r"Extend<.*>>::extend$|Vec::<T, A>::extend_from_slice$|Vec::<T, A>::append$", s_extend),
     (r"slice::<impl \[T\]>::reverse$", s_reverse),
+    (r"slice::<impl \[T\]>::get$", s_slice_get),
     (r"slice::<impl \[T\]>::first$", s_slice_pick("first")), (r"slice::<impl \[T\]>::last$", s_slice_pick("last")),
     (r"slice::<impl \[T\]>::split_last$", s_slice_pick("split_last")), (r"slice::<impl \[T\]>::split_first$", s_slice_pick("split_first")),
     (r"::Deref>::deref$|::DerefMut>::deref_mut$|::AsRef<.*>>::as_ref$|::Borrow<.*>>::borrow$|Vec::<T, A>::as_slice$|Vec::<T, A>::as_mut_slice$|::as_mut$|String::as_str$", s_identity),
